@@ -4,6 +4,7 @@ import cython
 
 cdef cython.uint DNS_COMPRESSION_HEADER_LEN
 cdef cython.uint MAX_DNS_LABELS
+cdef cython.uint MAX_DNS_LABEL_LENGTH
 cdef cython.uint DNS_COMPRESSION_POINTER_LEN
 cdef cython.uint MAX_NAME_LENGTH
 
